@@ -23,6 +23,10 @@ class _Weighted(Entry):
     def gen_batch(self, rng, cfg, n):
         shape2 = rng.random() < 0.25 and n % 2 == 0 and n > 0
         xs = grid(rng, n, 8, -16, 16)
+        if rng.random() < 0.2:
+            from ..catalogue import f64_only
+            xs = [abs(x) for x in f64_only(rng, n) if abs(x) < 10 ** 30] or xs      # same sign: no cancellation, sums well inside float64
+            xs = (xs * n)[:n]
         ws = cfg.get("_ws", 0)
         sc = Fraction(2) ** ws
         mode = rng.choice(["none", "scalar", "each"] if not ws else ["scalar", "each"])
